@@ -27,7 +27,7 @@ func Quiet() { log.SetOutput(io.Discard); log.SetFlags(0) }
 // Registry of checks: name -> entry points.
 type Check struct {
 	Property string
-	Run      func(r *ev.Run)                       // enumerate everything for r.Tier
+	Run      func(r *ev.Run)                      // enumerate everything for r.Tier
 	Replay   func(caseJSON []byte) []ev.Violation // run exactly one case
 }
 
